@@ -164,6 +164,26 @@ def setCond (force : Bool) (copy : Data) (k : Key) (e : Entry) : Bool :=
 def rmCond (force : Bool) (copy : Data) (k : Key) (e : Entry) : Bool :=
   !e.exposed && (((dfind k copy).map (·.exposed)).getD false || force)
 
+/-- the regenerated conditions are the ones the proofs below reason about (a changed operator in the source breaks these) -/
+theorem gen_setCond (force : Bool) (copy : Data) (k : Key) (e : Entry) :
+    Gen.exposedSetCond e.exposed force (dfind k copy).isNone (((dfind k copy).map (·.exposed)).getD false)
+      (((dfind k copy).map (·.value)) != some e.value) = setCond force copy k e := by
+  simp only [Gen.exposedSetCond, setCond]
+
+theorem gen_rmCond (force : Bool) (copy : Data) (k : Key) (e : Entry) :
+    Gen.exposedRmCond e.exposed force (dfind k copy).isNone (((dfind k copy).map (·.exposed)).getD false) = rmCond force copy k e := by
+  simp only [Gen.exposedRmCond, rmCond]
+  cases hf : dfind k copy <;> simp
+
+theorem gen_goneCond (data : Data) (k : Key) (e : Entry) :
+    Gen.exposedGoneCond e.exposed (dfind k data).isNone = (e.exposed && (dfind k data).isNone) := rfl
+
+theorem gen_unknownCond (data : Data) (k : Key) :
+    Gen.exposedUnknownCond (((dfind k data).map (·.exposed)).getD false) (dfind k data).isNone =
+      !((dfind k data).map (·.exposed)).getD false := by
+  simp only [Gen.exposedUnknownCond]
+  cases hf : dfind k data <;> simp
+
 theorem pass1_cons (age : Int) (force : Bool) (copy : Data) (k : Key) (e : Entry) (rest : Data) :
     (exposedPass1 age force copy ((k, e) :: rest)).1 =
       (if setCond force copy k e then mkCookie age e.value k :: (exposedPass1 age force copy rest).1 else (exposedPass1 age force copy rest).1) ∧
@@ -174,9 +194,7 @@ theorem pass1_cons (age : Int) (force : Bool) (copy : Data) (k : Key) (e : Entry
   have e1 : exposedPass1 age force copy ((k, e) :: rest) =
       if setCond force copy k e then (mkCookie age e.value k :: cs, rm)
       else if rmCond force copy k e then (cs, k :: rm) else (cs, rm) := by
-    simp only [exposedPass1, h]
-    cases c1 : setCond force copy k e <;> cases c2 : rmCond force copy k e <;>
-      (have c1' := c1; have c2' := c2; simp only [setCond, rmCond] at c1' c2'; simp [c1', c2'])
+    simp only [exposedPass1, h, gen_setCond, gen_rmCond]
   rw [e1]
   by_cases c1 : setCond force copy k e = true
   · simp only [c1, if_true, and_self]
@@ -268,7 +286,7 @@ theorem pass2_mem (data copy : Data) (hs : Sorted copy) (k : Key) :
   | cons p rest ih =>
     obtain ⟨k0, e0⟩ := p
     obtain ⟨h1, h2⟩ := hs
-    simp only [exposedPass2]
+    simp only [exposedPass2, gen_goneCond]
     by_cases hk : k0 = k
     · subst hk
       have hnone : dfind k0 rest = none := dfind_none_of_lt k0 rest h1
@@ -282,9 +300,9 @@ theorem pass2_mem (data copy : Data) (hs : Sorted copy) (k : Key) :
         intro ⟨a, b⟩
         apply c; simp [a, b]
     · simp only [dfind, hk, if_false]
-      split
-      · simp only [List.mem_cons, Ne.symm hk, false_or]; exact ih h2
-      · exact ih h2
+      by_cases c : (e0.exposed && (dfind k0 data).isNone) = true
+      · simp only [c, if_true, List.mem_cons, Ne.symm hk, false_or]; exact ih h2
+      · simp only [c, Bool.false_eq_true, if_false]; exact ih h2
 
 def exposedIn (data : Data) (k : Key) : Bool := ((dfind k data).map (·.exposed)).getD false
 
@@ -293,7 +311,7 @@ theorem pass3_mem (data : Data) (names : List Key) (k : Key) :
   induction names with
   | nil => simp [exposedPass3]
   | cons x rest ih =>
-    simp only [exposedPass3, exposedIn] at ih ⊢
+    simp only [exposedPass3, exposedIn, gen_unknownCond] at ih ⊢
     by_cases hx : x = k
     · subst hx
       by_cases c : ((dfind x data).map (·.exposed)).getD false = true
